@@ -94,6 +94,9 @@ Definition prog (o : dopts) (l l' : lst) : Prop :=
   1 <= zlen (l_src l) -> 1 <= l_cap l -> o_dstnull o = false ->
   l_used l < l_used l' \/ l_cap l' < l_cap l.
 
+(* what holds of the context even when a call fails *)
+Definition safe (s : dstate) : Prop := d_oob s = false /\ alloc_ok s.
+
 Definition postz (z : bool) (k : Z) (o : dopts) (l l' : lst) (oc : outcome) : Prop :=
   acct l l' /\
   match oc with
@@ -101,7 +104,7 @@ Definition postz (z : bool) (k : Z) (o : dopts) (l l' : lst) (oc : outcome) : Pr
                 (zlen (l_src l') < zlen (l_src l) \/
                  (k = 1 /\ zlen (l_src l') = zlen (l_src l) /\ rank (d_stage (l_s l')) = 0))
   | Stop h => wf (l_s l') /\ (h = 0 \/ prog o l l')
-  | Ret v => d_oob (l_s l') = false /\ (v < 0 \/ (z = true /\ zlen (l_src l) = 0 /\ wf (l_s l')))
+  | Ret v => safe (l_s l') /\ (v < 0 \/ (z = true /\ zlen (l_src l) = 0 /\ wf (l_s l')))
   end.
 Notation post := (postz false).
 
@@ -178,7 +181,7 @@ Qed.
 Lemma decodeHeader_cases s b src s' r :
   decodeHeader s b src = (s', r) ->
   d_maxBuf s' = d_maxBuf s /\ d_tmpInCap s' = d_tmpInCap s /\ d_oob s' = d_oob s /\
-  ( r < 0
+  ( (r < 0 /\ (s' = s \/ s' = set_fi s fi_zero))
   \/ (b = true /\ d_stage s' = StoreSFrameSize /\ d_tmpInSize s' = zlen src /\ d_tmpInTarget s' = 8 /\
       Z.land (rd32 src) SKIP_MASK = FD_MAGIC_SKIPPABLE_START)
   \/ (b = false /\ r = 4 /\ FD_minFHSize <= zlen src /\ d_stage s' = GetSFrameSize)
@@ -192,20 +195,20 @@ Proof.
   pose proof err_neg_all as (E1 & E2 & E3 & E4 & _).
   unfold decodeHeader. intro H.
   destruct (zlen src <? FD_minFHSize) eqn:E7.
-  { inversion H; subst. auto. }
+  { inversion H; subst. repeat (split; [reflexivity|]). left. auto. }
   apply Z.ltb_ge in E7.
   destruct (Z.land (rd32 src) SKIP_MASK =? FD_MAGIC_SKIPPABLE_START) eqn:ES.
   { apply Z.eqb_eq in ES. destruct b; inversion H; subst; ss; (split; [reflexivity|split; [reflexivity|split; [reflexivity|]]]).
     - right. left. auto.
     - right. right. left. auto. }
   destruct (negb (rd32 src =? FD_MAGICNUMBER)) eqn:EM.
-  { inversion H; subst. ss. auto. }
+  { inversion H; subst. ss. repeat (split; [reflexivity|]). left. auto. }
   apply negb_false_iff in EM. apply Z.eqb_eq in EM.
   destruct (nth_error_some_of_len src 4) as [FLG N4]; [unfold FD_minFHSize in E7; lia|].
   destruct (nth_error_some_of_len src 5) as [BD N5]; [unfold FD_minFHSize in E7; lia|].
   rewrite N4, N5 in H.
   destruct (flg_decode FLG) as [e|[[[[bm bc] cs] cc] di]] eqn:EF.
-  { inversion H; subst. ss. repeat (split; [reflexivity|]). left. eapply flg_decode_err; eauto. }
+  { inversion H; subst. ss. repeat (split; [reflexivity|]). left. split; [eapply flg_decode_err; eauto|auto]. }
   pose proof (fh_size_range cs di) as FR.
   destruct (zlen src <? fh_size cs di) eqn:EL.
   { apply Z.ltb_lt in EL.
@@ -215,11 +218,11 @@ Proof.
       exists FLG, bm, bc, cs, cc, di; auto. }
   apply Z.ltb_ge in EL.
   destruct (bd_decode BD) as [e|id] eqn:EB.
-  { inversion H; subst. ss. repeat (split; [reflexivity|]). left. eapply bd_decode_err; eauto. }
+  { inversion H; subst. ss. repeat (split; [reflexivity|]). left. split; [eapply bd_decode_err; eauto|auto]. }
   destruct (nth_error_some_of_len src (Z.to_nat (fh_size cs di - 1))) as [hcb NH]; [unfold FD_minFHSize in FR; lia|].
   rewrite NH in H.
   destruct (negb _).
-  { inversion H; subst. ss. auto. }
+  { inversion H; subst. ss. repeat (split; [reflexivity|]). left. auto. }
   inversion H; subst; clear H.
   assert (S1 := bd_decode_ok _ _ EB). assert (S2 := flg_decode_bc _ _ _ _ _ _ EF).
   destruct (cs =? 0); ss; repeat (split; [reflexivity|]); right; right; right; right; unfold bc01; ss; repeat split; auto; lia.
@@ -244,6 +247,9 @@ Proof. unfold alloc_ok. intros -> ->. auto. Qed.
 
 Ltac pi_tac := (eapply past_init_eq; [| | |eassumption]; reflexivity).
 Ltac al_tac := (eapply alloc_ok_eq; [| |eassumption]; reflexivity).
+Ltac safe_tac :=
+  unfold safe; ss; split; [first [congruence | auto]
+                          | first [assumption | al_tac | (eapply alloc_ok_eq; [| |eassumption]; ss; congruence)]].
 
 (* ---- skippable frames ---- *)
 Lemma skipSkippable_post o l :
@@ -384,7 +390,7 @@ Proof.
   intros (Hc & Ho & Ha). unfold do_checkSuffix.
   pose proof err_neg_all as E.
   destruct (negb (d_skip (l_s l)) && negb _); ss.
-  - split; [acct_tac|]. ss; split; [auto|left; tauto].
+  - split; [acct_tac|]. ss; split; [safe_tac|left; tauto].
   - split; [acct_tac|]. split; [|left; reflexivity]. apply wf_reset; ss; auto.
 Qed.
 
@@ -414,7 +420,7 @@ Proof.
   intros (Hc & Ho & Ha) Hst Hp. unfold do_getSuffix.
   pose proof (zlen_nonneg (l_src l)) as Hl. pose proof err_neg_all as E.
   destruct (negb (d_remaining (l_s l) =? 0)).
-  { ss. split; [acct_tac|]. ss; split; [auto|left; tauto]. }
+  { ss. split; [acct_tac|]. ss; split; [safe_tac|left; tauto]. }
   destruct (fi_ccFlag (d_fi (l_s l)) =? 0).
   { ss. split; [acct_tac|]. split; [|left; reflexivity]. apply wf_reset; ss; auto. }
   destruct (zlen (l_src l) <? 4) eqn:E4.
@@ -438,7 +444,7 @@ Proof.
   intros (Hc & Ho & Ha) Hp. unfold do_blockChecksum_check.
   pose proof err_neg_all as E.
   destruct (negb (d_skip (l_s l)) && negb _); ss.
-  - split; [acct_tac|]. ss; split; [auto|left; tauto].
+  - split; [acct_tac|]. ss; split; [safe_tac|left; tauto].
   - split; [acct_tac|]. split; [wf_tac Ho|]. right. repeat split; auto.
 Qed.
 
@@ -517,9 +523,9 @@ Proof.
   assert (Hp0 : past_init s0) by (eapply past_init_eq; [| | |exact Hp]; congruence).
   assert (Ha0 : alloc_ok s0) by (eapply alloc_ok_eq; [| |exact Ha]; congruence).
   destruct (negb crcok).
-  { ss. split; [acct_tac|]. ss; split; [congruence|left; tauto]. }
+  { ss. split; [acct_tac|]. ss; split; [safe_tac|left; tauto]. }
   match goal with |- context [match ?d with Some c => _ | None => _ end] => destruct d as [c|] eqn:ED end.
-  2:{ ss. split; [acct_tac|]. ss; split; [congruence|left; tauto]. }
+  2:{ ss. split; [acct_tac|]. ss; split; [safe_tac|left; tauto]. }
   assert (Hcl : zlen c <= d_maxBlock s0).
   { destruct (bdec _ _) as [c'|]; [|discriminate].
     destruct (zlen c' <=? d_maxBlock s0) eqn:EL; inversion ED; subst. apply Z.leb_le in EL. exact EL. }
@@ -637,7 +643,7 @@ Proof.
   set (n := Z.land (rd32 sel) 2147483647).
   assert (Hn : 0 <= n) by (unfold n; apply Z.land_nonneg; right; lia).
   destruct (d_maxBlock (l_s l) <? n) eqn:EM.
-  { ss. split; [exact A|]. ss; split; [auto|left; tauto]. }
+  { ss. split; [exact A|]. ss; split; [safe_tac|left; tauto]. }
   apply Z.ltb_ge in EM.
   destruct (negb (Z.land (rd32 sel) FD_BLOCKUNCOMPRESSED_FLAG =? 0)).
   { ss. destruct (fi_bcFlag (d_fi (l_s l)) =? 0); ss;
@@ -774,7 +780,7 @@ Proof.
     ss.
     assert (Hal : alloc_ok s') by (eapply alloc_ok_eq; [| |exact Ha]; assumption).
     destruct (r <? 0) eqn:ER.
-    { apply Z.ltb_lt in ER. ss. split; [acct_tac|]. ss. split; [congruence|left; exact ER]. }
+    { apply Z.ltb_lt in ER. ss. split; [acct_tac|]. ss. split; [safe_tac|left; exact ER]. }
     apply Z.ltb_ge in ER. ss.
     split; [acct_tac|]. ss.
     assert (M : zlen (zdrop n (l_src l)) < zlen (l_src l)) by (rewrite zlen_zdrop by lia; lia).
@@ -809,7 +815,7 @@ Proof.
     pose proof (decodeHeader_cases _ _ _ _ _ ED) as (D1 & D2 & D3 & D).
     assert (Hal : alloc_ok s') by (eapply alloc_ok_eq; [| |exact Ha]; assumption).
     destruct (r <? 0) eqn:ER.
-    { apply Z.ltb_lt in ER. ss. split; [acct_tac|]. ss. split; [congruence|left; exact ER]. }
+    { apply Z.ltb_lt in ER. ss. split; [acct_tac|]. ss. split; [safe_tac|left; exact ER]. }
     apply Z.ltb_ge in ER. ss.
     destruct D as [D|[D|[D|[D|D]]]]; try lia.
     + destruct D as (_ & -> & D7 & Dst).
@@ -821,7 +827,7 @@ Proof.
       unfold wf, stage_inv. rewrite Dst. repeat split; auto; congruence.
   - apply Z.leb_gt in E.
     destruct (zlen (l_src l) =? 0) eqn:E0.
-    { apply Z.eqb_eq in E0. ss. split; [acct_tac|]. ss. split; [exact Ho|]. right.
+    { apply Z.eqb_eq in E0. ss. split; [acct_tac|]. ss. split; [safe_tac|]. right.
       split; [reflexivity|]. split; [exact E0|]. unfold wf, stage_inv; ss.
       rewrite Hst. repeat split; auto; try al_tac. }
     apply Z.eqb_neq in E0.
@@ -972,7 +978,7 @@ Proof. destruct st; cbn; lia. Qed.
 Lemma run_post o : forall fuel l l' f,
   wf (l_s l) -> 0 <= l_cap l -> run bdec fuel o l = (l', f) ->
   acct l l' /\
-  d_oob (l_s l') = false /\
+  safe (l_s l') /\
   (mu l < Z.of_nat fuel -> f <> FFuel) /\
   match f with
   | FStop h => wf (l_s l') /\ (h = 0 \/ prog o l l')
@@ -981,7 +987,7 @@ Lemma run_post o : forall fuel l l' f,
   end.
 Proof.
   induction fuel as [|fuel IH]; intros l l' f Hwf Hc Hr.
-  - simpl in Hr. inversion Hr; subst. split; [apply acct_refl; auto|]. split; [apply Hwf|].
+  - simpl in Hr. inversion Hr; subst. split; [apply acct_refl; auto|]. split; [split; apply Hwf|].
     split; [|exact I]. unfold mu. pose proof (zlen_nonneg (l_src l')). pose proof (rank_range (d_stage (l_s l'))). lia.
   - cbn [run] in Hr.
     pose proof (iter_post o l Hwf Hc) as P. pose proof (iter_nogfh o l) as NG.
@@ -1004,7 +1010,7 @@ Proof.
            (* a return with a non-negative value only happens in dstage_getFrameHeader, which no
               continuing stage hands over to *)
            exfalso. exact (NG eq_refl R1).
-    + inversion Hr; subst. destruct P as [W P]. split; [exact A|]. split; [apply W|]. split; [discriminate|]. auto.
+    + inversion Hr; subst. destruct P as [W P]. split; [exact A|]. split; [split; apply W|]. split; [discriminate|]. auto.
     + inversion Hr; subst. destruct P as [O P]. split; [exact A|]. split; [exact O|]. split; [discriminate|].
       destruct P as [P|[Z [P W]]]; auto. right. split; [exact P|]. split; [|exact W].
       destruct (d_stage (l_s l)); try discriminate Z. reflexivity.
@@ -1027,7 +1033,7 @@ Variable bdec : list byte -> list byte -> option (list byte).
 (* everything the model-level part of C08 says about one call *)
 Definition call_ok (s : dstate) (src : list byte) (cap : Z) (o : dopts) (s' : dstate) (r : dres) : Prop :=
   r_fuel r = false /\                                   (* the fuel 4*|src|+16 suffices *)
-  d_oob s' = false /\                                   (* header[] and tmpIn[] never written out of bounds *)
+  safe s' /\                                            (* header[] and tmpIn[] never written out of bounds; buffer sizing consistent *)
   0 <= r_consumed r <= zlen src /\                      (* never reports more than it was given *)
   0 <= r_produced r <= cap /\ zlen (r_out r) <= cap /\
   (r_ret r < 0 \/ wf s') /\                             (* the invariant survives every call that does not fail *)
@@ -1051,10 +1057,11 @@ Proof.
   specialize (F Hmu).
   unfold acct, l0 in A; ss. rewrite zlen_nil in A.
   unfold call_ok. destruct f as [h|v|]; [| |congruence]; ss.
-  - destruct R as [W P]. repeat split; auto; try lia.
+  - destruct R as [W P]. split; [reflexivity|]. split; [exact O|]. split; [lia|]. split; [lia|]. split; [lia|].
+    split; [right; exact W|].
     intros H1 H2 H3. destruct P as [P|P]; [auto|].
     unfold prog, l0 in P; ss. specialize (P H1 H2 H3). lia.
-  - repeat split; auto; try lia.
+  - split; [reflexivity|]. split; [exact O|]. split; [lia|]. split; [lia|]. split; [lia|]. split.
     + destruct R as [R|(_ & _ & R)]; auto.
     + intros H1 _ _. destruct R as [R|(R & _)]; [auto|]. unfold l0 in R; ss. lia.
 Qed.
@@ -1101,29 +1108,31 @@ Qed.
 Theorem getFrameInfo_ok s src :
   wf s ->
   let '(s', r) := getFrameInfo bdec s src in
-  i_fuel r = false /\ d_oob s' = false /\ 0 <= i_consumed r <= zlen src /\ (i_ret r < 0 \/ wf s').
+  i_fuel r = false /\ safe s' /\ 0 <= i_consumed r <= zlen src /\ (i_ret r < 0 \/ wf s').
 Proof.
   intros Hwf. unfold getFrameInfo. pose proof (zlen_nonneg src) as Hl.
+  assert (Hsafe : safe s) by (split; apply Hwf).
   destruct (FD_dstage_storeFrameHeader <? stage_num (d_stage s)).
   { pose proof (decompress_ok s [] 0 (mkO false false true) Hwf (Z.le_refl 0)) as H.
     destruct (decompress bdec s [] 0 (mkO false false true)) as [s' r]. unfold call_ok in H; ss.
-    destruct H as (H1 & H2 & H3 & H4 & H5 & H6 & _). repeat split; auto; lia. }
+    destruct H as (H1 & H2 & H3 & H4 & H5 & H6 & _). split; [exact H1|]. split; [exact H2|]. split; [lia|exact H6]. }
   destruct (stage_num (d_stage s) =? FD_dstage_storeFrameHeader).
-  { ss. repeat split; try apply Hwf; try lia. left. vm_compute. reflexivity. }
+  { ss. split; [reflexivity|]. split; [exact Hsafe|]. split; [lia|]. left. vm_compute. reflexivity. }
   destruct (headerSize false src <? 0) eqn:EH.
-  { apply Z.ltb_lt in EH. ss. repeat split; try apply Hwf; try lia. }
+  { apply Z.ltb_lt in EH. ss. split; [reflexivity|]. split; [exact Hsafe|]. split; [lia|]. left. exact EH. }
   apply Z.ltb_ge in EH.
   destruct (zlen src <? headerSize false src) eqn:EL.
-  { ss. repeat split; try apply Hwf; try lia. left. vm_compute. reflexivity. }
+  { ss. split; [reflexivity|]. split; [exact Hsafe|]. split; [lia|]. left. vm_compute. reflexivity. }
   apply Z.ltb_ge in EL.
   destruct (decodeHeader s false (ztake (headerSize false src) src)) as [s' r] eqn:ED.
   pose proof (decodeHeader_cases _ _ _ _ _ ED) as (D1 & D2 & D3 & D).
   destruct Hwf as (W1 & W2 & W3).
   assert (Hal : alloc_ok s') by (eapply alloc_ok_eq; [| |exact W2]; assumption).
+  assert (Hs' : safe s') by (split; [congruence|exact Hal]).
   rewrite zlen_ztake in D by lia.
   destruct (r <? 0) eqn:ER; ss.
-  { apply Z.ltb_lt in ER. repeat split; try congruence; try lia. }
-  apply Z.ltb_ge in ER. split; [reflexivity|]. split; [congruence|].
+  { apply Z.ltb_lt in ER. split; [reflexivity|]. split; [exact Hs'|]. split; [lia|]. left. exact ER. }
+  apply Z.ltb_ge in ER. split; [reflexivity|]. split; [exact Hs'|].
   destruct D as [D|[D|[D|[D|D]]]]; try lia.
   - destruct D as (_ & -> & D7 & Dst). split; [unfold FD_minFHSize in *; lia|]. right.
     unfold wf, stage_inv. rewrite Dst. repeat split; auto; congruence.
@@ -1135,3 +1144,94 @@ Proof.
     unfold wf, stage_inv. rewrite Dst. repeat split; auto; congruence.
 Qed.
 End Call.
+
+(* ---- every state an API-conforming caller can reach ---- *)
+Section Reach.
+Variable bdec : list byte -> list byte -> option (list byte).
+
+Definition call_caps_ok (c : dcall) : Prop :=
+  match c with CDec _ cap _ _ => 0 <= cap | _ => True end.
+
+(* [Reach s failed]: s is reachable from a fresh context by calls with non-negative capacities,
+   where after a call that returned an error only LZ4F_resetDecompressionContext is used
+   (lz4frame.h: "After a decompression error, the dctx context is not resumable") *)
+Inductive Reach : dstate -> bool -> Prop :=
+  | R_init : Reach dctx_init false
+  | R_call s c : Reach s false -> call_caps_ok c ->
+                 Reach (fst (do_call bdec s c)) (ob_ret (snd (do_call bdec s c)) <? 0)
+  | R_reset s b : Reach s b -> Reach (reset s) false.
+
+Theorem reach_wf s b : Reach s b -> safe s /\ (b = false -> wf s).
+Proof.
+  induction 1 as [|s c R IH Hc|s b R IH].
+  - split; [split; apply wf_init|intros _; apply wf_init].
+  - destruct IH as [_ IH]. specialize (IH eq_refl).
+    destruct c as [src cap [d|] o|src|]; cbn [do_call call_caps_ok] in *.
+    + pose proof (decompress_usingDict_ok bdec s src cap d o IH Hc) as H.
+      destruct (decompress_usingDict bdec s src cap d o) as [s' r]. unfold call_ok in H; ss.
+      destruct H as (_ & H2 & _ & _ & _ & H6 & _). unfold ob_ret. split; [exact H2|]. intro E. apply Z.ltb_ge in E.
+      destruct H6; [lia|auto].
+    + pose proof (decompress_ok bdec s src cap o IH Hc) as H.
+      destruct (decompress bdec s src cap o) as [s' r]. unfold call_ok in H; ss.
+      destruct H as (_ & H2 & _ & _ & _ & H6 & _). unfold ob_ret. split; [exact H2|]. intro E. apply Z.ltb_ge in E.
+      destruct H6; [lia|auto].
+    + pose proof (getFrameInfo_ok bdec s src IH) as H.
+      destruct (getFrameInfo bdec s src) as [s' r]. ss.
+      destruct H as (_ & H2 & _ & H4). unfold ob_ret. split; [exact H2|]. intro E. apply Z.ltb_ge in E.
+      destruct H4; [lia|auto].
+    + ss. destruct IH as (I1 & I2 & _).
+      assert (W : wf (reset s)) by (apply wf_reset; auto).
+      split; [split; apply W|intros _; exact W].
+  - destruct IH as [[I1 I2] _].
+    assert (W : wf (reset s)) by (apply wf_reset; auto).
+    split; [split; apply W|intros _; exact W].
+Qed.
+End Reach.
+
+(* ---- statements exported to Properties_C08.v ---- *)
+Section Export.
+Variable bdec : list byte -> list byte -> option (list byte).
+
+Lemma do_call_dec_ok s src cap dict o :
+  wf s -> 0 <= cap ->
+  let '(s', ob) := do_call bdec s (CDec src cap dict o) in
+  exists r, call_ok s src cap o s' r /\ ob_consumed ob = r_consumed r /\ ob_produced ob = r_produced r /\
+            ob_out ob = r_out r /\ ob_ret ob = r_ret r.
+Proof.
+  intros Hwf Hc. cbn [do_call]. destruct dict as [d|].
+  - pose proof (decompress_usingDict_ok bdec s src cap d o Hwf Hc) as H.
+    destruct (decompress_usingDict bdec s src cap d o) as [s' r]. exists r. ss. auto.
+  - pose proof (decompress_ok bdec s src cap o Hwf Hc) as H.
+    destruct (decompress bdec s src cap o) as [s' r]. exists r. ss. auto.
+Qed.
+
+Theorem progress_thm s src cap dict o :
+  wf s -> 1 <= zlen src -> 1 <= cap -> o_dstnull o = false ->
+  let ob := snd (do_call bdec s (CDec src cap dict o)) in
+  ob_ret ob < 0 \/ ob_ret ob = 0 \/ 0 < ob_consumed ob \/ 0 < ob_produced ob.
+Proof.
+  intros Hwf H1 H2 H3. pose proof (do_call_dec_ok s src cap dict o Hwf ltac:(lia)) as H.
+  destruct (do_call bdec s (CDec src cap dict o)) as [s' ob]. destruct H as (r & C & E1 & E2 & E3 & E4).
+  cbn [snd]. rewrite E1, E2, E4. apply C; auto.
+Qed.
+
+Theorem reports_within_given_thm s src cap dict o :
+  wf s -> 0 <= cap ->
+  let ob := snd (do_call bdec s (CDec src cap dict o)) in
+  0 <= ob_consumed ob <= zlen src /\ 0 <= ob_produced ob <= cap /\ zlen (ob_out ob) <= cap.
+Proof.
+  intros Hwf Hc. pose proof (do_call_dec_ok s src cap dict o Hwf Hc) as H.
+  destruct (do_call bdec s (CDec src cap dict o)) as [s' ob]. destruct H as (r & C & E1 & E2 & E3 & E4).
+  cbn [snd]. rewrite E1, E2, E3. unfold call_ok in C. tauto.
+Qed.
+
+Theorem no_fuel_out_thm s src cap o :
+  wf s -> 0 <= cap -> r_fuel (snd (decompress bdec s src cap o)) = false.
+Proof. intros Hwf Hc. apply (decompress_ok bdec s src cap o Hwf Hc). Qed.
+
+Theorem staging_in_bounds_thm s b : Reach bdec s b -> d_oob s = false.
+Proof. intro R. destruct (reach_wf bdec s b R) as [[H _] _]. exact H. Qed.
+
+Theorem wf_invariant_thm s : Reach bdec s false -> wf s.
+Proof. intro R. destruct (reach_wf bdec s false R) as [_ H]. apply H. reflexivity. Qed.
+End Export.
